@@ -463,6 +463,12 @@ func lockSummary(repo string) []string {
 				if s == "delete" && len(x.Args) > 0 && exprStr(x.Args[0]) == "globalRegistry" {
 					writes = true
 				}
+				// the registry handed to a helper by address is handed over for writing
+				for _, a := range x.Args {
+					if u, ok := a.(*ast.UnaryExpr); ok && u.Op == token.AND && exprStr(u.X) == "globalRegistry" {
+						writes = true
+					}
+				}
 				if strings.HasPrefix(s, "globalRegistryMutex.") {
 					m := strings.TrimPrefix(s, "globalRegistryMutex.")
 					switch m {
